@@ -1,11 +1,13 @@
 """C08 — Gaussian particle filter: beliefs and importance weights (DESIGN.md §5 C08)."""
 import math
 import os
+import re
 import numpy as np
+import scipy.linalg
 from vlib import caseio, gen, runner
 
 ID = "C08"
-COQ_TARGETS = ["C08_Extract.vo", "C08_Proofs.vo", "C08_Real.vo", "C08_TV.vo"]
+COQ_TARGETS = ["C08_Extract.vo", "C08_Proofs.vo", "C08_Real.vo", "C08_TV.vo", "C08_LDLTDef.vo", "C08_LDLT.vo"]
 COQ_PREFIXES = ["C08", "C01"]
 EXTRACTED = "C08_model"
 DRIVER = "drv_C08.ml"
@@ -18,7 +20,8 @@ REQUIRED_THEOREMS = ["C08_predict_frame", "C08_predict_beliefs", "C08_correct_be
                      "C08_correct_likelihood_on_drawn", "C08_weight_formula", "C08_weight_product_form",
                      "C08_invalid_restores", "C08_mahalanobis", "C08_multi_step", "C08_multi_step_time_varying", "C08_no_hidden_memory",
                      "C08_stepwise_trace", "C08_executed_trace_time_varying", "C08_kf_conjugate_beliefs", "C08_kf_mahalanobis",
-                     "C08_weights_telescope", "C08_unscented_steps_shape_ok", "C08_gauss_lik_length", "C08_pf_trace_noskip", "C08_pf_skip_correction",
+                     "C08_weights_telescope", "C08_ldlt_sqrt_contract", "C08_ldlt_sqrt_contract_mx", "C08_mahalanobis_proved", "C08_kf_mahalanobis_proved",
+                     "C08_unscented_steps_shape_ok", "C08_gauss_lik_length", "C08_pf_trace_noskip", "C08_pf_skip_correction",
                      "C08_draws_from_own_generator", "C08_draw_touches_own_generator_only",
                      "C08_move_assign_transfers_likelihood_model", "C08_fresh_reports_invalid",
                      "C08_pre_fix_draws_from_own_generator_refuted", "C08_pre_fix_fresh_likelihood_invalid_refuted", "C08_pre_fix_move_assign_refuted"]
@@ -40,10 +43,25 @@ RULE = ("cases from one seeded stream: n in 1..4 and 6 (2, 4, 6 with the library
         "per step scripted validity of measure / predictedMeasure / innovation / getNoiseCovarianceMatrix and of the likelihood model, skip flags of PFPrediction, "
         "GaussianPrediction, PFCorrection, GaussianCorrection; outlier measurements and far-off positions (densities in the underflow range), 32-bit seeds, "
         "likelihood scale factors incl. 0; likelihood models returning one value too many / too few (the latter under Eigen assertions only); "
+        "PHYSICAL UNITS PER COORDINATE: 60% of the histories with Kalman steps and a linear-Gaussian transition model (n = 1..4; about 15% of all histories) are rewritten "
+        "x -> D x, y -> E y consistently in means, positions, covariances, F, Q, H, R, Ft, Qt, y (the exponents of D span up to 16 orders of magnitude - one coordinate "
+        "6..16 orders above or below a cluster of mutually correlated others, two clusters, evenly graded, mild -, those of E up to 6 orders; one case in three with powers "
+        "of two): per coordinate the problem is as well posed as before, the covariances have entries spread over up to 32 orders, and about 1700 particle-steps per quick "
+        "run have a corrected belief with correlated coordinates that any test relative to its largest entry (Eigen's isDiagonal(), a relative rank cut-off) calls diagonal; "
+        "these histories are compared and judged in unit coordinates (D^-1 x: every entry against the size of its own coordinate; conditioning of D^-1 P D^-1); "
+        "not rewritten (counted under 'unit coordinates'): unscented steps (Eigen's two-sided Jacobi SVD factor is accurate relative to the largest entry only), the "
+        "library's WhiteNoiseAcceleration (fixed parameters) and the Cauchy-like density (not homogeneous); "
+        "DEEP TAILS: 30% of the Kalman / linear-Gaussian histories (about 7% of all) start with a measurement 20..40 standard deviations from the predicted one and "
+        "previous positions as far from where the transition model puts them, placed so that ln(likelihood) and ln(transition density) are each in about [-690, -300] "
+        "(ordinary doubles) while their sum is below ln(DBL_MIN) = -708.4 (several hundred such particle-steps per quick run, counted): the log-weight is judged in "
+        "the log domain, both from the densities the implementation returned and from log-densities computed by the oracle, each density floored separately by eps as the code does; "
+        "CALLBACK RE-ENTRANCY: 20% of the histories are run with an independent twin particle-filter step (own GPFPrediction / GPFCorrection objects, own models "
+        "serving other operands of the same shapes, own particle sets, own random generator with another seed) executed inside EVERY callback of the subject's state, "
+        "measurement, likelihood and transition models; the expected results are unchanged (hidden state shared between objects: function-local statics, globals); "
         "lifetime cases (getLikelihood() on a fresh object constructed in 0xFF-filled storage; move construction + destruction of the source; move-assignment chain "
         "a2 = move(a1); a1 = move(a3) compared with never-moved reference objects); "
         "non-trivial = N >= 2 and at least one valid correction; distinct by (n, m, N class, steps, tkind, wrap, hkind, likkind, validity/skip pattern, cond decade, "
-        "set of operand groups that change)")
+        "set of operand groups that change, pattern of the units)")
 TRUSTED_BASE = ["Coq 8.16.1 kernel (coqc); structural, Mahalanobis and C01-composition theorems are axiom-free; the product form of the weight update "
                 "is over Coq's R and uses the four real-number axioms of the standard library (sig_forall_dec, sig_not_dec, functional_extensionality_dep, classic)",
                 "MathComp 1.15 matrix theory",
@@ -56,13 +74,17 @@ TRUSTED_BASE = ["Coq 8.16.1 kernel (coqc); structural, Mahalanobis and C01-compo
                 "library's square-root factor by feeding unit vectors through gaussian_random_sample_ into sampleFromProposal(0, P))",
                 "the model is run ONE STEP AT A TIME from the state the implementation reported before the step (C08_stepwise_trace: the trace of a history is the "
                 "concatenation of such one-step traces; every field of the reported state has itself been compared): both sides compute each step from identical inputs",
-                "comparison tolerances: belief means / covariances rtol 1e-9*cond (cond = worst condition number along the linear recursion of the case); positions, "
-                "square-root factor, log-likelihood, log-proposal (with |z|^2/2 taken out) and log-weights per particle and step: 64 eps times a conditioning unit "
+                "comparison tolerances: predicted beliefs (and beliefs copied by an invalid / skipped correction) rtol 1e-9*cond (cond = worst condition number along the "
+                "linear recursion of the case); corrected means and covariances, positions, square-root factor, log-likelihood, log-proposal (with |z|^2/2 taken out) and log-weights per particle and step: 64 eps times a conditioning unit "
                 "DERIVED from the implementation's own predicted / corrected belief of that particle (first-order error analysis of one step, props/C08.py 'conditioning "
                 "of ONE step': cond(S) |Pp| / lmin(Pc) cancellation of the gain update, Cholesky perturbation, unscented weights and deviation cancellation, asymmetry "
-                "of the covariance, near-coincident eigenvalues under a nonlinear h, gradients of the log-densities times the position error); calibrated: worst "
-                "|impl-model| / (eps unit) over 11 000 thorough histories = 4.0 (allowed 64); particles whose allowed log-domain difference would exceed 0.02 are "
-                "ill-conditioned at that step: not compared, counted; spec formulae on the implementation 1e-11 * cond of the matrix inverted plus the derived "
+                "of the covariance, near-coincident eigenvalues under a nonlinear h, gradients of the log-densities times the position error; for a history in other "
+                "units per coordinate everything is evaluated in unit coordinates and the condition number of every matrix the code inverts by an LU factorisation with "
+                "partial pivoting - S, R, Qt, P: Eigen's dynamic-size inverse() / determinant(), and the model's Gauss-Jordan - is multiplied by the growth "
+                "|D^-1 P|L||U| D^-1| / |D^-1 A D^-1| of that factorisation of the matrix AS THE CODE SEES IT, median 1.3, p99 80, Higham Thm 9.3); calibrated: worst "
+                "|impl-model| / (eps unit) over 5140 thorough + 12 000 widened histories = 2.5 (corrected mean; covariance 2.4, likelihood 1.5, factor 1.2; allowed 64), "
+                "recorded by every run ('tolerance_units', 'worst_ratio_cases'); particles whose allowed log-domain difference would exceed 0.02, or whose allowed "
+                "relative belief difference would exceed 1e-3, are ill-conditioned at that step: not compared, counted; spec formulae on the implementation 1e-11 * cond of the matrix inverted plus the derived "
                 "cancellation term of the differences x - m, y - h(x), x - Ft xp; weight identity 4e-15 * sum |terms|",
                 "the lifetime state machine rs_* is not extracted: tied to the code by scripted scenarios only",
                 "correspondence is sampled: agreement is established on the generated cases only",
@@ -73,8 +95,11 @@ ASSUMPTIONS = ["std::normal_distribution<double>(0,1) over std::mt19937_64 yield
                "domain: the corrected covariances are symmetric positive definite (premise spd P of the Mahalanobis / proposal-density theorems). With a singular "
                "belief the proposal density does not exist; the library then reports valid = 1 with NaN / inf log-weights (det = 0 in utils.h:303). Such particles "
                "are generated, detected on the implementation's c_cov (condition number > 1e12) and counted, not judged",
-               "the LDL^T-based factor satisfies L L^T = P for symmetric positive definite P (premise of the Mahalanobis theorems, stated on the Gallina ldlt_sqrt); "
-               "checked on the library's own factor (observed through sampleFromProposal) at 1e-12*cond on every valid particle and against the model's factor",
+               "std::sqrt meets 0 <= x -> sqrt x * sqrt x = x up to rounding (the only premise left of the square-root factor: L L^T = P is PROVED for the Gallina "
+               "ldlt_sqrt - pivoting included - for every symmetric positive definite P, at the executed list instance and at the MathComp instance: "
+               "C08_ldlt_sqrt_contract, C08_ldlt_sqrt_contract_mx, hence C08_mahalanobis_proved / C08_kf_mahalanobis_proved without a premise on the factor); still "
+               "checked at run time on the library's own factor (observed through sampleFromProposal; in unit coordinates, 1e-12 * cond(D^-1 P D^-1)) on every valid "
+               "particle and against the model's factor: that check now measures rounding and the transcription, not an assumption",
                "the wrapped Gaussian step and the object it writes have the same number of components as its input (shape premise of the theorems; proved for the "
                "KF / UKF / SUKF / skipping steps of the model on equally shaped buffers)",
                "the likelihood model returns one value per position and the transition model one value per pair (length premises of C08_weight_formula; proved for "
@@ -93,6 +118,9 @@ SIG_ASSIGN_LIK = "C08:move-assign-keeps-old-likelihood-model"
 LIFETIME_COUNT = {"quick": 12, "thorough": 20}
 
 COUNTS = {"quick": 2000, "thorough": 5000}
+DEEP_SHARE = 0.3            # share of the Kalman / linear-Gaussian histories whose first step is deep in the tails of both densities
+INTRUDE_SHARE = 0.2         # share of the histories run with a twin filter step inside every model callback (h_C08.cpp)
+UNITS_SHARE = 0.6           # share of the Kalman / linear-Gaussian histories that are rewritten in other units per coordinate
 KS_CASES = {"quick": 0, "thorough": 60}
 BADLIK_CASES = {"quick": 24, "thorough": 40}
 EPS = 2.2250738585072014e-308
@@ -100,7 +128,8 @@ UNDERFLOW = 1e-305          # Eigen's vectorised exp floors at 5.56e-309 where l
 SINGULAR = 1e12             # a covariance with a larger condition number is outside the domain spd P
 _stats = {"other_factor_steps": 0, "underflow_particles": 0, "singular_belief_particles": 0, "nan_weight_with_valid_on_singular": 0,
           "ill_conditioned_particle_steps": 0, "compared_particle_steps": 0,
-          "tol_lw": [], "d2": {}, "ratios": {"lik": [], "q": [], "lw": [], "L": [], "x": [], "zz": []}, "last_id": None, "pooled_done": False, "badlik_short_asserted": 0}
+          "belief_ill_conditioned": 0, "deep": {}, "intruder": {}, "growth": [], "units_compared": 0, "units_ill_conditioned": 0, "units_diag_like": {},
+          "tol_lw": [], "d2": {}, "ratios": {"lik": [], "q": [], "lw": [], "L": [], "x": [], "zz": [], "mc": [], "Pc": []}, "last_id": None, "pooled_done": False, "badlik_short_asserted": 0}
 
 
 # ------------------------------------------------------------------ generation
@@ -163,7 +192,140 @@ def step_ops(c, k):
     return o
 
 
-def make_case(rng, cid, n=None, N=None, steps=None, tkind=None, allvalid=False, kind="gpf", wrap=None, singular=False, plain=False, tv=None):
+# ---- physical units -------------------------------------------------------------------------------------------------------
+# A history is first drawn in "unit" coordinates (every state / measurement coordinate of order 1, conditioning chosen), then
+# rewritten for a state measured in other units per coordinate, x -> D x, and a measurement in other units, y -> E y:
+#   means, positions D.; covariances, Q, Qt  D . D;  F, Ft  D . D^-1;  H  E . D^-1;  R  E . E;  y  E. ;  log-weights unchanged;
+# likelihoods are divided by det E, transition / proposal densities by det D.  Per coordinate the problem is as well posed as
+# before (the posterior in the new units is the old one rewritten), but the covariances now have entries spread over up to 32
+# orders of magnitude: anything the code decides from the SIZE of an entry relative to another coordinate's (a relative
+# "is zero" / "is diagonal" test, a rank cut-off, a pivot threshold) decides differently.  The exponents of D follow patterns:
+#   dominant  one coordinate 6..16 orders above a cluster of the others (the others are mutually correlated: a covariance that
+#             is "diagonal" for any test relative to its largest entry, e.g. Eigen's isDiagonal(), once the gap exceeds ~12.5)
+#   tiny      one coordinate 6..16 orders below the others;     clusters  two groups;     graded  evenly spread over 2..16 orders
+#   mild      at most 2 orders.        One case in three uses powers of two (the rewriting is then exact).
+UNIT_PATTERNS = ("dominant", "dominant", "dominant", "graded", "tiny", "clusters", "mild")
+
+
+def draw_units(rng, n, mmax):
+    pat = rng.choice(UNIT_PATTERNS)
+    w = rng.uniform(0.0, 3.0)
+    if pat in ("dominant", "tiny"):
+        gap = rng.uniform(12.0, 16.0 - w) if rng.random() < 0.6 else rng.uniform(6.0, 12.0)
+        u = [rng.uniform(0.0, w) for _ in range(n)]
+        j = rng.randrange(n)
+        u[j] = (w + gap) if pat == "dominant" else -gap
+    elif pat == "clusters":
+        gap = rng.uniform(4.0, 16.0 - w)
+        hi = set(rng.sample(range(n), max(1, n // 2)))
+        u = [rng.uniform(0.0, w / 2) + (gap + w / 2 if i in hi else 0.0) for i in range(n)]
+    elif pat == "graded":
+        span = rng.uniform(2.0, 16.0)
+        u = [span * i / max(1, n - 1) for i in range(n)]
+        rng.shuffle(u)
+    else:
+        u = [rng.uniform(0.0, 2.0) for _ in range(n)]
+    mid = (max(u) + min(u)) / 2.0 + rng.uniform(-3.0, 3.0)
+    u = [x - mid for x in u]
+    ue = [0.0] * mmax if rng.random() < 0.3 else [rng.uniform(-3.0, 3.0) for _ in range(mmax)]
+    if rng.random() < 0.33:
+        d = np.array([2.0 ** round(x * math.log2(10.0)) for x in u]); e = np.array([2.0 ** round(x * math.log2(10.0)) for x in ue])
+    else:
+        d = np.array([10.0 ** x for x in u]); e = np.array([10.0 ** x for x in ue])
+    return d, e, pat, max(u) - min(u)
+
+
+def _scales(name, shape, d, e):
+    """(row factors, column factors) of the field `name` (of a case or of an output record) under x -> diag(d) x,
+    y -> diag(e) y; None for a quantity that is not rewritten (log-weights, draws, densities, flags)."""
+    n = len(d); R, C = shape
+    mt = re.match(r"^(?:sep_)?[pc]\d*_(state|mean|cov)$", name)
+    if mt:
+        sc = (d, np.tile(d, C // n) if mt.group(1) == "cov" else np.ones(C))
+    elif re.match(r"^L\d+$", name):
+        sc = (d, np.ones(C))
+    else:
+        base = re.sub(r"_\d+$", "", name)
+        if base in ("F", "Ft"):
+            sc = (d, 1.0 / d)
+        elif base in ("Q", "Qt"):
+            sc = (d, d)
+        elif base == "H":
+            sc = (e[:R], 1.0 / d)
+        elif base in ("G", "G2"):
+            sc = (np.ones(R), 1.0 / d)
+        elif base == "b":
+            sc = (e[:R], np.ones(C))
+        elif base == "R":
+            sc = (e[:R], e[:C])
+        elif base == "ys":
+            sc = (e[:R], np.ones(C))
+        else:
+            return None
+    if len(sc[0]) != R or len(sc[1]) != C:
+        return None                                # a field of unexpected shape is left as it is (and compared as it is)
+    return sc
+
+
+def _rescale(name, v, d, e, to_unit):
+    sc = _scales(name, v.shape, d, e)
+    if sc is None:
+        return v
+    f = np.outer(sc[0], sc[1])                    # (fl(d_i d_j) is symmetric: a symmetric matrix stays exactly symmetric)
+    return v / f if to_unit else v * f
+
+
+def units_of(c):
+    """(d, e) of a case written in other units, None for a case in unit coordinates."""
+    if not c.has("D"):
+        return None
+    return np.asarray(c.get("D"), dtype=float).reshape(-1), np.asarray(c.get("E"), dtype=float).reshape(-1)
+
+
+_views = {}
+
+
+def _view(obj, d, e):
+    """The case / output record rewritten in unit coordinates (x -> D^-1 x, y -> E^-1 y).  Densities stay as they are."""
+    hit = _views.get(id(obj))
+    if hit is not None and hit[0] is obj:
+        return hit[1]
+    if isinstance(obj, caseio.Case):
+        out = caseio.Case(obj.id, obj.kind, obj.meta)
+        out.ops = [(tag, name, _rescale(name, v, d, e, True) if tag == "mat" else v) for tag, name, v in obj.ops]
+    else:
+        out = caseio.Record(obj.id, obj.kind); out.meta = obj.meta
+        for name, (tag, v) in obj.vals.items():
+            out.vals[name] = (tag, _rescale(name, v, d, e, True) if tag == "mat" else v)
+    if len(_views) > 12:
+        _views.clear()
+    _views[id(obj)] = (obj, out)
+    return out
+
+
+def _gepp_growth(A, s):
+    """Eigen's inverse() / determinant() of a dynamic-size matrix (utils.h:303, KFCorrection.cpp:112) are an LU factorisation
+    with PARTIAL pivoting, and so is the Gauss-Jordan routine of the model's list instance.  Its backward error is
+    |dA| <= c eps |L||U| (Higham, Accuracy and Stability of Numerical Algorithms, Thm 9.3); for A = diag(s) C diag(s) the rows
+    are chosen by the size of s_i |C_ik|, not of |C_ik|, and |L||U| can exceed |A| entry-wise by the ratio of the scales over
+    the pivot: rewritten in unit coordinates the error is eps times  g = | diag(s)^-1 P|L||U| diag(s)^-1 | / |C|  (>= 1) instead
+    of eps.  g multiplies the condition number of C wherever such an inverse / determinant enters (derived from the matrix the
+    implementation factorises, never a constant)."""
+    A = np.asarray(A, dtype=float)
+    if A.size == 0:
+        return 1.0
+    if not np.all(np.isfinite(A)):
+        return math.inf
+    P, L, U = scipy.linalg.lu(A)
+    ss = np.outer(s, s)
+    den = _nrm(A / ss)
+    if not den > 0:
+        return math.inf
+    g = _nrm((P @ (np.abs(L) @ np.abs(U))) / ss) / den
+    return max(1.0, g) if math.isfinite(g) else math.inf
+
+
+def make_case(rng, cid, n=None, N=None, steps=None, tkind=None, allvalid=False, kind="gpf", wrap=None, singular=False, plain=False, tv=None, units=None):
     if n is None:
         n = rng.choice([1, 2, 2, 3, 4, 4, 6] if not plain else [1, 2, 3, 4])
     m = rng.randint(1, 3)
@@ -194,7 +356,9 @@ def make_case(rng, cid, n=None, N=None, steps=None, tkind=None, allvalid=False, 
         if not vary:
             vary = {"R"}
     mvar = bool(tv and wrap in ("kf", "ukf") and rng.random() < 0.25)    # the measurement SIZE changes too (H, R, hfun redrawn with it)
-    meta = {"n": n, "m": m, "N": N, "steps": steps, "tkind": tkind, "wrap": wrap, "hkind": hkind, "likkind": likkind, "singular": int(singular)}
+    # callback re-entrancy: an independent twin filter step (own objects, models, data, generator) runs inside every model callback
+    intrude = 1 if (kind == "gpf" and rng.random() < INTRUDE_SHARE) else 0
+    meta = {"n": n, "m": m, "N": N, "steps": steps, "tkind": tkind, "wrap": wrap, "hkind": hkind, "likkind": likkind, "singular": int(singular), "intrude": intrude}
     c = caseio.Case(cid, kind, meta)
     if wrap == "ukf":
         c.mat("ut", [[rng.uniform(0.6, 1.0), rng.choice([0.0, 2.0]), rng.choice([0.0, 1.0, 3.0 - n if n < 3 else 0.0])]])
@@ -318,6 +482,59 @@ def make_case(rng, cid, n=None, N=None, steps=None, tkind=None, allvalid=False, 
     fl = {k: [1 if rng.random() < pfl else 0 for _ in range(steps)] for k in ("mv", "pv", "iv", "cv")}
     lok = [1 if (allvalid or plain or rng.random() < 0.93) else 0 for _ in range(steps)]
     sk = {k: [0 if (allvalid or plain or rng.random() < 0.96) else 1 for _ in range(steps)] for k in ("skpp", "skgp", "skpc", "skgc")}
+    # DEEP TAILS (Kalman steps, linear-Gaussian transition model): at the first step the measurement lies 20..40 standard
+    # deviations from the predicted measurement and the previous positions are as far from where the transition model expects
+    # them, placed so that for most particles ln(likelihood) and ln(transition density) are each between about -690 and -300
+    # - both densities are ordinary doubles - while their SUM is below ln(DBL_MIN) = -708.4: the product of the two densities
+    # is not representable.  The log-weight is lw + ln(l + eps) + ln(t + eps) - ln(q + eps), each density floored separately.
+    deep = (kind == "gpf" and not plain and not singular and wrap == "kf" and tkind == "lingauss" and hkind == 0
+            and float(np.linalg.cond(ops[0]["Ft"])) < 1e3 and rng.random() < DEEP_SHARE)
+    if deep:
+        o0_ = ops[0]
+        for kk in ("mv", "pv", "iv", "cv"):
+            fl[kk][0] = 1
+        lok[0] = 1
+        for kk in sk:
+            sk[kk][0] = 0
+        if o0_["scale"] == 0.0:
+            o0_["scale"] = 1.0
+        # similar beliefs, so that one measurement puts most particles in the range
+        covs = [covs[0] * rng.uniform(0.8, 1.25) for _ in range(N)]
+        means = truth + gen.matrix(rng, n, N, 0.3 * spread)
+        mk0 = o0_["H"].shape[0]
+        Hm, Rm = o0_["H"], o0_["R"]
+        Pp0 = o0_["F"] @ covs[0] @ o0_["F"].T + o0_["Q"]; mp0 = o0_["F"] @ means[:, :1]
+        S0 = Hm @ Pp0 @ Hm.T + Rm
+        K0 = Pp0 @ Hm.T @ np.linalg.inv(S0)
+        u = gen.matrix(rng, mk0, 1, 1.0); u /= np.linalg.norm(u)
+        dirn = np.linalg.cholesky(S0) @ u
+        want_l = -rng.uniform(380.0, 600.0); want_t = -rng.uniform(380.0, 600.0)
+        const_l = (math.log(o0_["scale"]) if o0_["scale"] > 0 else 0.0) - 0.5 * (mk0 * math.log(2 * math.pi) + float(np.linalg.slogdet(Rm)[1]))
+
+        def lnl(sv):
+            nu = sv * dirn                       # y - H mp
+            r_ = nu - Hm @ (K0 @ nu)             # y - H mc
+            return const_l - 0.5 * float((r_.T @ np.linalg.solve(Rm, r_))[0, 0])
+        lo_, hi_ = 0.0, 1e6
+        for _ in range(80):
+            mid_ = 0.5 * (lo_ + hi_)
+            if lnl(mid_) > want_l:
+                lo_ = mid_
+            else:
+                hi_ = mid_
+        ys[:mk0, 0] = (Hm @ mp0 + lo_ * dirn)[:, 0]
+        # previous positions: Ft xp = mc - r Qt^(1/2) u2 with r from the wanted ln t
+        const_t = -0.5 * (n * math.log(2 * math.pi) + float(np.linalg.slogdet(o0_["Qt"])[1]))
+        r2 = math.sqrt(max(0.0, 2.0 * (const_t - want_t)))
+        cq = np.linalg.cholesky(o0_["Qt"])
+        states = np.zeros((n, N))
+        for i in range(N):
+            Ppi = o0_["F"] @ covs[i] @ o0_["F"].T + o0_["Q"]; mpi = o0_["F"] @ means[:, i:i + 1]
+            Ki = Ppi @ Hm.T @ np.linalg.inv(Hm @ Ppi @ Hm.T + Rm)
+            mci = mpi + Ki @ (ys[:mk0, 0:1] - Hm @ mpi)
+            u2 = gen.matrix(rng, n, 1, 1.0); u2 /= np.linalg.norm(u2)
+            states[:, i:i + 1] = np.linalg.solve(o0_["Ft"], mci - r2 * rng.uniform(0.9, 1.1) * (cq @ u2))
+        outlier = False
     # what the wrapped correction and the likelihood model can use
     gcok = [int(fl["mv"][k] and fl["pv"][k] and fl["iv"][k] and (fl["cv"][k] or wrap != "kf")) for k in range(steps)]
     lflags = {("l%d" % (j + 1)): [(fl[f][k] if likkind == "gaussian" else 1) for k in range(steps)] for j, f in enumerate(("mv", "pv", "iv", "cv"))}
@@ -351,7 +568,7 @@ def make_case(rng, cid, n=None, N=None, steps=None, tkind=None, allvalid=False, 
         changed.add("m")
     c.meta.update({"fkind": fk, "hmat": hkind_H, "cond": "%.3g" % min(cond, 1e15), "invalid": pattern,
                    "same_trans": int(same_trans or (np.array_equal(F, Ft) and np.array_equal(Q, Qt))), "outlier": int(outlier),
-                   "scale0": int(any(o["scale"] == 0.0 for o in ops)),
+                   "scale0": int(any(o["scale"] == 0.0 for o in ops)), "deep": int(deep),
                    "tv": "+".join(sorted(changed)) if changed else "-"})
     o0 = ops[0]
     c.mat("F", o0["F"]).mat("Q", o0["Q"]).mat("H", o0["H"]).mat("G", o0["G"]).mat("G2", o0["G2"]).mat("b", o0["b"]).mat("g", o0["g"]).mat("R", o0["R"])
@@ -374,6 +591,16 @@ def make_case(rng, cid, n=None, N=None, steps=None, tkind=None, allvalid=False, 
             v0, vk = np.atleast_2d(np.asarray(o0[nm], dtype=float)), np.atleast_2d(np.asarray(ops[k][nm], dtype=float))
             if v0.shape != vk.shape or not np.array_equal(v0, vk):
                 c.mat("%s_%d" % (nm, k), vk)
+    # ---- other physical units per coordinate (Kalman steps, linear-Gaussian transition model; see draw_units)
+    if units is None:
+        units = kind == "gpf" and not plain and not singular and wrap == "kf" and tkind == "lingauss" and rng.random() < UNITS_SHARE
+    if units and wrap == "kf" and tkind == "lingauss" and not singular:
+        d, e, upat, uspan = draw_units(rng, n, mmax)
+        c.ops = [(tag, name, _rescale(name, v, d, e, False) if tag == "mat" else v) for tag, name, v in c.ops]
+        c.mat("D", [d]).mat("E", [e])
+        c.meta["units"] = "%s:%d" % (upat, int(round(uspan)))
+    else:
+        c.meta["units"] = "-"
     return c
 
 
@@ -403,7 +630,8 @@ def nontrivial(c):
     n, m, N, steps = (int(c.meta[k]) for k in ("n", "m", "N", "steps"))
     if N >= 2 and "v" in c.meta["invalid"]:
         ncls = "2-3" if N <= 3 else ("4-12" if N <= 12 else "13-30")
-        return (n, m, ncls, steps, c.meta["tkind"], c.meta["wrap"], c.meta["hkind"], c.meta["likkind"], c.meta["invalid"], gen.decade(float(c.meta["cond"])), c.meta.get("tv", "-"))
+        return (n, m, ncls, steps, c.meta["tkind"], c.meta["wrap"], c.meta["hkind"], c.meta["likkind"], c.meta["invalid"], gen.decade(float(c.meta["cond"])), c.meta.get("tv", "-"),
+                str(c.meta.get("units", "-")).split(":")[0])
     return None
 
 
@@ -470,6 +698,9 @@ def _log(v):
 EPSM = 1.1102230246251565e-16
 C_UNIT = 64.0
 LOG_CAP = 0.02
+BELIEF_CAP = 1e-3           # a corrected belief whose allowed relative difference would exceed this is not compared (counted)
+# CALIBRATION of the present units (unchanged tree, thorough generator seed 1, 5140 histories, and the widened samples of seeds 1-4, 12 000 histories): worst
+# r: corrected mean 2.5, covariance 2.4, ln l 1.5, L 1.2, ln q 1.2, position 0.95, lw 0.8, |z'|^2 0.5.   History of the calibration:
 # CALIBRATION (unchanged tree; r = |impl-model| / (EPSM * unit); thorough generator, seed 1 (5140 histories) and the widened
 # samples of seeds 3 and 5 (3000 each): 190 000 particle-steps):  worst r: L 4.0, position 3.1, ln l 1.8, ln q 0.93, lw 0.78,
 # |z'|^2 0.24; p99.9 <= 0.98; median <= 0.001.  C_UNIT = 64 leaves a factor 16 over the worst ratio seen.  Every run records the
@@ -508,7 +739,7 @@ def _note(name, ratio, c, k, i, **kw):
     R_[name].append(ratio)
     w = _stats.setdefault("worst", {}).setdefault(name, [])
     if len(w) < 4 or ratio > w[-1][0]:
-        w.append((ratio, "%s step %d particle %d wrap=%s hkind=%s n=%s tv=%s %s" % (c.id, k, i, c.meta.get("wrap"), c.meta.get("hkind"), c.meta.get("n"), c.meta.get("tv"),
+        w.append((ratio, "%s step %d particle %d wrap=%s hkind=%s n=%s tv=%s units=%s %s" % (c.id, k, i, c.meta.get("wrap"), c.meta.get("hkind"), c.meta.get("n"), c.meta.get("tv"), c.meta.get("units", "-"),
                                                                                   " ".join("%s=%.3g" % kv for kv in kw.items()))))
         w.sort(key=lambda t: -t[0]); del w[4:]
 
@@ -554,24 +785,29 @@ def _pred_units(c, o, wrap, skipped, m0, P0):
     # deviations sigma'_i - mu are differences of rounded vectors of size |F m| + dev: 2 eps (|F m| + dev) each, entering the
     # covariance sum_i wc_i (sigma'_i - mu)(sigma'_i - mu)^T with weight |wc_i| 2 |sigma'_i - mu|  (2n terms of (1/2c) dev)
     cross = 4 * (n / max(cc, 1e-300)) * dev * (nF * nm + dev)
-    return (n + 1) * nF * nF * nP + Wc * dev * dev / max(cc, 1e-300) + nQ + Wc * nF * nF * nP + nF * nF * asym + cross, ump
+    # second order (it is all there is when P = 0 and Q = 0): the mean weights sum to 1 only up to rounding, every deviation
+    # sigma'_i - mu carries the error eps ump of mu, and the covariance collects sum |wc_i| (eps ump)^2
+    second = Wc * EPSM * ump * ump
+    return (n + 1) * nF * nF * nP + Wc * dev * dev / max(cc, 1e-300) + nQ + Wc * nF * nF * nP + nF * nF * asym + cross + second, ump
 
 
-def _belief_units(c, o, wrap, hk, acted, mp, Pp, mc, Pc, uPp, ump):
-    """(uP, um, k_step) of one particle at one step, from the implementation's own predicted / corrected beliefs."""
+def _belief_units(c, o, wrap, hk, acted, mp, Pp, mc, Pc, uPp, ump, gS=1.0):
+    """(uP, um, k_step) of one particle at one step, from the implementation's own predicted / corrected beliefs
+    (gS: growth of the partial-pivoting factorisation of S in the units of the case, see _gepp_growth)."""
     if not acted:
         return uPp, ump, 1.0         # the wrapped correction copied its input
     H, R, y = o["H"], o["R"], o["y"]
     nPp = _nrm(Pp)
     if not (np.all(np.isfinite(Pp)) and np.all(np.isfinite(mp)) and np.all(np.isfinite(Pc))):
         return math.inf, math.inf, math.inf
-    rot_P = rot_m = 0.0
+    rot_P = rot_m = sukf_gain = 0.0
     if wrap == "kf":
         S = H @ Pp @ H.T + R
-        kst = _safe_cond(S)
+        kst = _safe_cond(S) * gS
         K = Pp @ H.T @ np.linalg.pinv(S)
         W = 1.0
         yhat = H @ mp
+        PH = Pp @ H.T
     else:
         # (the implementation's SVD factor and the model's Jacobi factor of the symmetrised matrix agree up to the asymmetry of Pp)
         uPp = uPp + _nrm(Pp - Pp.T) / EPSM
@@ -587,6 +823,7 @@ def _belief_units(c, o, wrap, hk, acted, mp, Pp, mc, Pc, uPp, ump):
         rho = (_nrm(mp) / sdev_ if sdev_ > 0 else 0.0) + (Ymax_ / dYmax_ if dYmax_ > 0 else 0.0)
         W = W * (1.0 + rho)
         K = Pxy @ np.linalg.pinv(S)
+        PH = Pxy
         if hk != 0 and len(mp) > 1:
             # The square-root factor of the sigma points is determined up to column order and sign only while the eigenvalues
             # of Pp are distinct: its columns turn by eps |Pp| / gap under rounding.  A linear h does not see this (the set
@@ -614,6 +851,14 @@ def _belief_units(c, o, wrap, hk, acted, mp, Pp, mc, Pc, uPp, ump):
             Ys = dY * np.sqrt(np.maximum(wc, 0.0))
             Cm = np.eye(Ys.shape[1]) + Ys.T @ np.linalg.solve(R, Ys)
             kst = _safe_cond(Cm) * _safe_cond(R)
+            # mc = mp + Xs C^-1 d, d = Ys^T R^-1 nu (SUKFCorrection.cpp, IV.C.4): the two inverses are accurate to their condition
+            # numbers relative to |C^-1 d| and |R^-1 nu|, of which the products that follow may cancel most
+            try:
+                Xs = (X - mp.reshape(-1, 1)) * np.sqrt(np.maximum(wc, 0.0))
+                rn = np.linalg.solve(R, np.asarray(y).reshape(-1) - np.asarray(yhat).reshape(-1))
+                sukf_gain = _safe_cond(Cm) * _nrm(Xs) * _nrm(np.linalg.solve(Cm, Ys.T @ rn)) + _safe_cond(R) * _nrm(Xs) * _nrm(np.linalg.inv(Cm)) * _nrm(Ys) * _nrm(rn)
+            except np.linalg.LinAlgError:
+                sukf_gain = math.inf
     # how the rounding of the predicted belief is carried through the correction: dPc = A dPp A^T, A = I - K H = Pc Pp^-1
     if uPp > 0 or ump > 0:
         try:
@@ -624,7 +869,13 @@ def _belief_units(c, o, wrap, hk, acted, mp, Pp, mc, Pc, uPp, ump):
     else:
         nA, g = 0.0, 0.0
     uP = W * (kst + 1.0) * nPp + nA * nA * uPp + rot_P
-    um = W * kst * _nrm(mc - mp) + W * _nrm(K) * (_nrm(y) + _nrm(yhat)) + _nrm(mc) + _nrm(mp) + nA * ump + nA * uPp * g + rot_m
+    # the gain times the innovation is P H^T (S^-1 nu): the inverse is accurate to k_step RELATIVE TO |S^-1 nu|, of which H^T may
+    # annihilate most (more measurements than states, a nearly noise-free direction): |P H^T| |S^-1 nu| >= |mc - mp|
+    try:
+        sin = _nrm(np.linalg.pinv(S) @ (np.asarray(y).reshape(-1) - np.asarray(yhat).reshape(-1)))
+    except np.linalg.LinAlgError:
+        sin = math.inf
+    um = W * max(kst * _nrm(mc - mp), kst * _nrm(PH) * sin, sukf_gain) + W * _nrm(K) * (_nrm(y) + _nrm(yhat)) + _nrm(mc) + _nrm(mp) + nA * ump + nA * uPp * g + rot_m
     return uP, um, kst
 
 
@@ -635,6 +886,15 @@ def compare(c, impl, model):
         return []
     if impl.get("skipped_ndebug") == 1:
         return []
+    # A case written in other units per coordinate is compared in unit coordinates (x -> D^-1 x, y -> E^-1 y): every position,
+    # mean, covariance and factor entry is then measured against the size of ITS OWN coordinate, and the conditioning that
+    # enters the tolerances is that of D^-1 P D^-1, not cond(P).  Densities are compared as they are (the comparison is in the
+    # log domain: a common factor det D / det E cancels); where the implementation factorises a matrix with partial pivoting
+    # in ITS units, the growth of that factorisation multiplies the condition number (_gepp_growth).
+    U = units_of(c)
+    raw_c, raw_impl = c, impl
+    if U is not None:
+        c, impl, model = _view(c, *U), _view(impl, *U), _view(model, *U)
     cond = float(c.meta["cond"])
     n, N, steps = int(c.meta["n"]), int(c.meta["N"]), int(c.meta["steps"])
     wrap, hk_, tk = c.meta["wrap"], int(c.meta["hkind"]), c.meta["tkind"]
@@ -649,9 +909,11 @@ def compare(c, impl, model):
     R_ = _stats["ratios"]
     for k in range(steps):
         o = step_ops(c, k)
-        fields += ["p%d_components" % k, "c%d_components" % k, "p%d_mean" % k, "p%d_cov" % k, "c%d_mean" % k, "c%d_cov" % k, "valid%d" % k,
+        fields += ["p%d_components" % k, "c%d_components" % k, "p%d_mean" % k, "p%d_cov" % k, "valid%d" % k,
                    "p%d_state" % k, "p%d_lw" % k]
         valid = impl.get("valid%d" % k) == 1
+        if not valid or skpc[k]:
+            fields += ["c%d_mean" % k, "c%d_cov" % k]          # copies of the predicted beliefs
         # likelihood_ is an observable of its own (getLikelihood()): compared on invalid steps too
         il, ml = impl.get("lik%d" % k), model.get("lik%d" % k)
         if not valid or skpc[k] or badlik:
@@ -662,7 +924,8 @@ def compare(c, impl, model):
             fields += ["c%d_state" % k, "c%d_lw" % k]
         else:
             need = ["t%d" % k, "q%d" % k, "L%d" % k, "z%d" % k, "c%d_state" % k, "c%d_lw" % k, "p%d_state" % k, "p%d_lw" % k, "c%d_cov" % k, "c%d_mean" % k, "p%d_cov" % k, "p%d_mean" % k]
-            if any(impl.get(x) is None for x in need) or any(model.get(x) is None for x in ("q%d" % k, "L%d" % k, "zz%d" % k, "c%d_state" % k, "c%d_lw" % k)) \
+            if any(impl.get(x) is None for x in need) or any(model.get(x) is None for x in ("q%d" % k, "L%d" % k, "zz%d" % k, "c%d_state" % k, "c%d_lw" % k, "c%d_mean" % k, "c%d_cov" % k)) \
+                    or model.get("c%d_mean" % k).shape != impl.get("c%d_mean" % k).shape or model.get("c%d_cov" % k).shape != impl.get("c%d_cov" % k).shape \
                     or il is None or ml is None or il.shape[0] < N or ml.shape[0] < N:
                 d.append("step %d: missing / short fields of a valid correction" % k); continue
             t, iq, mq = impl.get("t%d" % k), impl.get("q%d" % k), model.get("q%d" % k)
@@ -681,12 +944,34 @@ def compare(c, impl, model):
             Qtinv = np.linalg.inv(o["Qt"]) if tk != "cauchy" else None
             cQ = _safe_cond(o["Qt"]) if tk != "cauchy" else 1.0
             mk = o["H"].shape[0]
+            if U is not None:
+                ro = step_ops(raw_c, k)
+                rpc, rcc = raw_impl.get("p%d_cov" % k), raw_impl.get("c%d_cov" % k)
+                cR *= _gepp_growth(ro["R"], U[1][:mk])
+                cQ *= _gepp_growth(ro["Qt"], U[0])
+            cm_m, cc_m = model.get("c%d_mean" % k), model.get("c%d_cov" % k)
             for i in range(N):
-                if cP[i] > SINGULAR or not np.all(np.isfinite(xs_i[:, i])) or not np.all(np.isfinite(xp_i[:, i])):
-                    continue                   # singular belief: outside the domain (counted by the oracle)
                 Pp, Pc, mp, mc = pc[:, n * i:n * (i + 1)], cc_[:, n * i:n * (i + 1)], pm[:, i], cm[:, i]
+                gS = gP = 1.0
+                if U is not None:
+                    gS = _gepp_growth(ro["H"] @ rpc[:, n * i:n * (i + 1)] @ ro["H"].T + ro["R"], U[1][:mk])
+                    gP = _gepp_growth(rcc[:, n * i:n * (i + 1)], U[0])
+                    _stats["growth"].append(max(gS, gP))
                 uPp, ump = _pred_units(c, o, wrap, skpp[k] or skgp[k], prev_m[:, i], prev_P[:, n * i:n * (i + 1)])
-                uP, um, kst = _belief_units(c, o, wrap, hk_, acted, mp, Pp, mc, Pc, uPp, ump)
+                uP, um, kst = _belief_units(c, o, wrap, hk_, acted, mp, Pp, mc, Pc, uPp, ump, gS)
+                # corrected belief of this particle: |dPc| <= uP, |dmc| <= um (the rounding of ONE wrapped correction, derived above)
+                dmc, dPc = caseio.maxdiff(mc, cm_m[:, i]), caseio.maxdiff(Pc, cc_m[:, n * i:n * (i + 1)])
+                if math.isfinite(um) and math.isfinite(uP) and C_UNIT * EPSM * um <= BELIEF_CAP * max(1.0, _nrm(mc)) and C_UNIT * EPSM * uP <= BELIEF_CAP * max(1e-300, _nrm(Pc)):
+                    _note("mc", dmc / (um * EPSM) if um > 0 else (0.0 if dmc == 0 else math.inf), c, k, i, kst=kst, um=um, acted=acted)
+                    _note("Pc", dPc / (uP * EPSM) if uP > 0 else (0.0 if dPc == 0 else math.inf), c, k, i, kst=kst, uP=uP, acted=acted)
+                    if not dmc <= C_UNIT * EPSM * um:
+                        d.append("c%d_mean[%d]: max|impl-model|=%.3g (tol %.3g = %g eps x unit %.3g; k_step %.3g)" % (k, i, dmc, C_UNIT * EPSM * um, C_UNIT, um, kst))
+                    if not dPc <= C_UNIT * EPSM * uP:
+                        d.append("c%d_cov[%d]: max|impl-model|=%.3g (tol %.3g = %g eps x unit %.3g; k_step %.3g)" % (k, i, dPc, C_UNIT * EPSM * uP, C_UNIT, uP, kst))
+                else:
+                    _stats["belief_ill_conditioned"] += 1      # the wrapped correction itself is not determined to BELIEF_CAP by double arithmetic here
+                if cP[i] > SINGULAR or not np.all(np.isfinite(xs_i[:, i])) or not np.all(np.isfinite(xp_i[:, i])):
+                    continue                   # singular belief: outside the domain (counted by the oracle); only the beliefs were compared
                 ev = np.linalg.eigvalsh((Pc + Pc.T) / 2)
                 lmin, lmax = float(ev.min()), float(ev.max())
                 kP = cP[i]                                   # effective condition number (asymmetry included, see _conds)
@@ -696,7 +981,7 @@ def compare(c, impl, model):
                 ux = um + uL * nz + nx + nm_
                 li, ti, qi = float(il[i, 0]), float(t[i, 0]), float(iq[i, 0])
                 lm_, qm_ = float(ml[i, 0]), float(mq[i, 0])
-                u_q = (n + zz) * (uP / lmin + kP) + 2 * nz * (nx + nm_) / math.sqrt(lmin) + abs(_log(max(qi, UNDERFLOW)))
+                u_q = (n + zz) * (uP / lmin + kP * gP) + 2 * nz * (nx + nm_) / math.sqrt(lmin) + abs(_log(max(qi, UNDERFLOW)))
                 hx = h_eval(hk_, o["H"], o["G"], o["G2"], o["b"], o["g"], xi_.reshape(-1, 1))[:, 0]
                 nu = o["y"] - hx; a_ = Rinv @ nu
                 J = h_jac(hk_, o["H"], o["G"], o["G2"], o["g"], xi_.reshape(-1, 1))
@@ -714,8 +999,12 @@ def compare(c, impl, model):
                 units = {"q": u_q, "lik": u_l, "lw": u_lw}
                 if not all(math.isfinite(u) for u in (u_q, u_l, u_t, ux, uL)) or C_UNIT * EPSM * max(u_q, u_l, u_t) > LOG_CAP:
                     _stats["ill_conditioned_particle_steps"] += 1
+                    if U is not None:
+                        _stats["units_ill_conditioned"] += 1
                     continue
                 _stats["compared_particle_steps"] += 1
+                if U is not None:
+                    _stats["units_compared"] += 1
                 under = min(li, ti, qi, lm_, qm_) < UNDERFLOW
                 if under and (li > 0 or lm_ > 0 or o["scale"] != 0.0):
                     _stats["underflow_particles"] += 1
@@ -869,6 +1158,14 @@ def _oracle(c, impl, model):
     if impl.get("skipped_ndebug") == 1:
         return []
     v = []
+    # other units per coordinate: the clauses are evaluated in unit coordinates (see compare); the densities the implementation
+    # returned are judged as they are, against the unit-coordinate value divided by det E (likelihood) / det D (transition, proposal)
+    U = units_of(c)
+    raw_c, raw_impl = c, impl
+    off_d = 0.0
+    if U is not None:
+        c, impl = _view(c, *U), _view(impl, *U)
+        off_d = float(np.sum(np.log(U[0])))
     n, m, N, steps = (int(c.meta[k]) for k in ("n", "m", "N", "steps"))
     tk, hkind = c.meta["tkind"], int(c.meta["hkind"])
     badlik = c.get("badlik") if c.has("badlik") else 0
@@ -877,6 +1174,8 @@ def _oracle(c, impl, model):
     prev_valid, prev_lik = False, np.zeros((0, 1))
     d2_case = []
     dead = np.zeros(N, dtype=bool)      # particles that met a singular belief: their positions are outside the domain from then on
+    if str(c.meta.get("intrude", "0")) == "1":
+        _stats["intruder"][c.id] = impl.get("intruder_calls", 0) or 0
     if impl.get("rng_mirror_ok") != 1:
         v.append(("C08:draws-not-the-seeded-stream", "the draws consumed differ from mt19937_64(seed) + normal_distribution(0,1) in order"))
     for k in range(steps):
@@ -884,6 +1183,11 @@ def _oracle(c, impl, model):
         o = step_ops(c, k)
         H, G, G2, b, g, R, Ft, Qt, scale, yk = (o[x] for x in ("H", "G", "G2", "b", "g", "R", "Ft", "Qt", "scale", "y"))
         cR = float(np.linalg.cond(R)); cQ = float(np.linalg.cond(Qt)) if tk != "cauchy" else 1.0
+        off_e = 0.0
+        if U is not None:
+            ro = step_ops(raw_c, k)
+            off_e = float(np.sum(np.log(U[1][:H.shape[0]])))
+            cR *= _gepp_growth(ro["R"], U[1][:H.shape[0]]); cQ *= _gepp_growth(ro["Qt"], U[0])
         P_ = {f: impl.get("p%d_%s" % (k, f)) for f in ("state", "mean", "cov", "lw")}
         C_ = {f: impl.get("c%d_%s" % (k, f)) for f in ("state", "mean", "cov", "lw")}
         tag = "step %d" % k
@@ -957,7 +1261,16 @@ def _oracle(c, impl, model):
                 tolw = 4e-15 * sum(abs(a) for a in terms) + 1e-15
                 if not (abs(got - want) <= tolw):
                     v.append(("C08:weight-identity", "%s particle %d: log-weight %.17g, expected lw + ln(l+eps) + ln(t+eps) - ln(q+eps) = %.17g (l=%.6g t=%.6g q=%.6g)" % (tag, i, got, want, li, ti, qi)))
+                gP = 1.0
+                if U is not None:
+                    rP = raw_impl.get("c%d_cov" % k)[:, n * i:n * (i + 1)]
+                    gP = _gepp_growth(rP, U[0])
+                    # (evidence) a belief that any test RELATIVE to its largest entry calls diagonal although its coordinates are correlated
+                    off = np.abs(rP - np.diag(np.diag(rP))); sd = np.sqrt(np.abs(np.diag(Pc)))
+                    if n > 1 and float(off.max()) <= 1e-12 * float(np.abs(np.diag(rP)).max()):
+                        _stats["units_diag_like"][(c.id, k, i)] = float(np.max(np.abs(Pc - np.diag(np.diag(Pc))) / np.outer(sd, sd)))
                 # the library's square-root factor (observed through sampleFromProposal(0, P) on unit draws): L L^T = P
+                # (in unit coordinates: every entry of L L^T - P is measured against the standard deviations of its own two coordinates)
                 Li = L[:, n * i:n * (i + 1)]
                 res = caseio.maxdiff(Li @ Li.T, _lowsym(Pc)) / max(1e-300, float(np.max(np.abs(Pc))))
                 if not res <= 1e-12 * cP[i]:
@@ -975,10 +1288,17 @@ def _oracle(c, impl, model):
                 canc = C_UNIT * EPSM * 2 * math.sqrt(zz) * (float(np.linalg.norm(x)) + float(np.linalg.norm(mu))) / math.sqrt(lmin_)
                 if not (abs(d2 - zz) <= 1e-11 * cP[i] * max(1.0, zz) + canc):
                     v.append(("C08:mahalanobis", "%s particle %d: (x-m)^T P^-1 (x-m) = %.12g but |z|^2 = %.12g" % (tag, i, d2, zz)))
+                # the same through the factor the implementation used: |A^-1 (x - m)|^2 = |z|^2 (cond(A)^2 = cond(P), after rescaling)
+                try:
+                    zA = np.linalg.solve(Li, x - mu); d2A = float(zA @ zA)
+                except np.linalg.LinAlgError:
+                    d2A = math.nan
+                if not (abs(d2A - zz) <= 1e-11 * cP[i] * max(1.0, zz) + canc):
+                    v.append(("C08:mahalanobis-through-factor", "%s particle %d: |A^-1 (x-m)|^2 = %.12g for the factor A used by sampleFromProposal, but |z|^2 = %.12g" % (tag, i, d2A, zz)))
                 d2_case.append(d2)
                 # likelihood on the drawn position, transition on (previous position, drawn position), proposal at the drawn position
                 hx = h_eval(hkind, H, G, G2, b, g, x.reshape(-1, 1))[:, 0]
-                ls = (math.log(scale) if scale > 0 else -math.inf) + _logdens(yk, hx, R)
+                ls = (math.log(scale) if scale > 0 else -math.inf) + _logdens(yk, hx, R) - off_e
                 # (y - h(x) and x - Ft xp are differences of rounded quantities: eps times their magnitudes, times the gradient)
                 a_l = np.linalg.solve(R, yk - hx)
                 canc_l = C_UNIT * EPSM * float(np.linalg.norm(a_l)) * (float(np.linalg.norm(yk)) + float(np.linalg.norm(hx))
@@ -992,12 +1312,27 @@ def _oracle(c, impl, model):
                     nd_ = float(np.linalg.norm(dd))
                     ts = -math.log1p(float(dd @ dd)); ttol = 1e-13 * (1 + abs(ts)) + C_UNIT * EPSM * 2 * nd_ / (1 + nd_ * nd_) * rnd_t
                 else:
-                    ts = _logdens(x, Ft @ xp, Qt); ttol = 1e-11 * cQ * (1 + abs(ts)) + C_UNIT * EPSM * float(np.linalg.norm(np.linalg.solve(Qt, dd))) * rnd_t
+                    ts = _logdens(x, Ft @ xp, Qt) - off_d; ttol = 1e-11 * cQ * (1 + abs(ts)) + C_UNIT * EPSM * float(np.linalg.norm(np.linalg.solve(Qt, dd))) * rnd_t
                 if not _close_logdens(ti, ts, ttol):
                     v.append(("C08:transition-not-p(cur|prev):tkind=%s" % tk, "%s particle %d: transition density %.6g, expected %.6g at (previous position, drawn position)" % (tag, i, ti, _exp(ts))))
-                qs = _logdens(x, mu, Ps)
-                if not _close_logdens(qi, qs, 1e-11 * cP[i] * (1 + abs(qs)) + canc / 2):
+                qs = _logdens(x, mu, Ps) - off_d
+                qtol = 1e-11 * cP[i] * gP * (1 + abs(qs)) + canc / 2
+                if not _close_logdens(qi, qs, qtol):
                     v.append(("C08:proposal-density", "%s particle %d: proposal density %.6g, N(x_i; m_i, P_i) = %.6g" % (tag, i, qi, _exp(qs))))
+                # the weight clause in the LOG domain, from the log-densities of the specification (not from the values the
+                # implementation returned): lw' = lw + ln(l + eps) + ln(t + eps) - ln(q + eps) with every density floored
+                # SEPARATELY, as GPFCorrection.cpp:125-129 does.  ln l and ln t may each be an ordinary number while their
+                # sum is below ln(DBL_MIN): the product of the densities is then not representable, the sum of the logs is.
+                if min(li, ti, qi) >= UNDERFLOW and math.isfinite(ls) and min(ls, ts, qs) > math.log(UNDERFLOW):
+                    if ls + ts < math.log(EPS):
+                        _stats["deep"][(c.id, k, i)] = ls + ts
+                    fl_ = lambda a: math.log(math.exp(a) + EPS)
+                    terms_s = [float(P_["lw"][i, 0]), fl_(ls), fl_(ts), -fl_(qs)]
+                    ltol = 1e-11 * cR * (1 + abs(ls)) + canc_l
+                    tol_s = ltol + ttol + qtol + 4e-15 * sum(abs(a) for a in terms_s) + 1e-15
+                    if not abs(got - sum(terms_s)) <= tol_s:
+                        v.append(("C08:weight-formula-log-domain", "%s particle %d: log-weight %.17g, but lw + ln l + ln t - ln q = %.17g from the log-densities at the drawn position "
+                                  "(ln l = %.6g, ln t = %.6g, ln q = %.6g; ln l + ln t = %.6g, ln DBL_MIN = -708.4)" % (tag, i, got, sum(terms_s), ls, ts, qs, ls + ts)))
         prev = C_
         prev_valid, prev_lik = valid, lik
         if len(v) > 12:
@@ -1048,6 +1383,23 @@ def histogram(cases):
         for grp in str(c.meta.get("tv", "-")).split("+"):
             grp = "constant" if grp == "-" else grp
             h["time_varying_groups"][grp] = h["time_varying_groups"].get(grp, 0) + 1
+    h["deep_tail_cases"] = sum(1 for c in cases if str(c.meta.get("deep", "0")) == "1")
+    h["particle_steps_with_normal_likelihood_and_transition_density_whose_product_is_below_DBL_MIN"] = len(_stats["deep"])
+    h["callback_reentrancy_cases"] = {"cases": sum(1 for c in cases if str(c.meta.get("intrude", "0")) == "1"),
+                                      "twin_steps_run_inside_callbacks_of_the_last_step": int(sum(_stats["intruder"].values()))}
+    un = {}
+    for c in cases:
+        u = str(c.meta.get("units", "-")).split(":")
+        key = "unit coordinates" if u[0] == "-" else "%s, %s orders" % (u[0], "0-5" if int(u[1]) <= 5 else ("6-11" if int(u[1]) <= 11 else "12-16"))
+        un[key] = un.get(key, 0) + 1
+    h["physical_units_per_coordinate"] = un
+    dl = list(_stats["units_diag_like"].values())
+    h["particle_steps_with_correlated_belief_that_is_diagonal_relative_to_its_largest_entry"] = {
+        "count": len(dl), "of_which_largest_correlation_above_0.1": sum(1 for x in dl if x > 0.1)}
+    h["particle_steps_in_other_units_compared"] = _stats["units_compared"]
+    h["particle_steps_in_other_units_ill_conditioned_not_compared"] = _stats["units_ill_conditioned"]
+    gq = _stats["growth"]
+    h["partial_pivoting_growth_in_the_units_of_the_case"] = {"n": len(gq), "median": float("%.3g" % _pct(gq, 50)), "p99": float("%.3g" % _pct(gq, 99)), "max": float("%.3g" % _pct(gq, 100))}
     h["skip_flag_cases"] = sum(1 for c in cases if any(x != "0" for k in ("skpp", "skgp", "skpc", "skgc") for x in c.get(k)))
     h["singular_belief_cases"] = sum(1 for c in cases if c.meta.get("singular") in (1, "1"))
     ks = {}
@@ -1068,6 +1420,7 @@ def histogram(cases):
                             for k, a in _stats["ratios"].items()}
     h["worst_ratio_cases"] = {k: ["%.3g: %s" % t for t in v] for k, v in _stats.get("worst", {}).items()}
     h["particle_steps_compared"] = _stats["compared_particle_steps"]
+    h["particle_steps_whose_corrected_belief_is_ill_conditioned_not_compared"] = _stats["belief_ill_conditioned"]
     h["ill_conditioned_particle_steps_not_compared"] = _stats["ill_conditioned_particle_steps"]
     a = _stats["tol_lw"]
     h["log_weight_absolute_tolerance"] = {"n": len(a), "median": float("%.3g" % _pct(a, 50)), "p90": float("%.3g" % _pct(a, 90)), "max": float("%.3g" % _pct(a, 100))}
@@ -1080,7 +1433,8 @@ LEVEL_TEXT = ("Proof: for the model of GPFPrediction::predictStep and GPFCorrect
               "beliefs by the wrapped step's and leaves positions and log-weights untouched, that the correction replaces the beliefs by the wrapped correction's, sets "
               "x_i = m_i + L_i z_i, evaluates the likelihood on the drawn positions, sets lw'_i = lw_i + ln(l_i+eps) + ln(t_i+eps) - ln(q_i+eps) (under the length contracts of "
               "the two models) with q_i the Gaussian density at the drawn position (product form over R with the positivity guard proved), and returns the predicted set when "
-              "the likelihood is invalid; over MathComp matrices the Mahalanobis identity (x-m)^T P^-1 (x-m) = z^T z for SPD P under the contract L L^T = P, and with C01's "
+              "the likelihood is invalid; over MathComp matrices the Mahalanobis identity (x-m)^T P^-1 (x-m) = z^T z for SPD P, the contract L L^T = P of the pivoted LDL^T square root being "
+              "proved too (Schur-complement induction; the executed pivot order is proved to be a permutation; any real field with 0 <= x -> sqrt x * sqrt x = x), and with C01's "
               "Kalman correction as wrapped step the beliefs are the information-form posteriors. The chi-square law of the distances is reduced to this identity plus the "
               "assumption that the draws are standard normal. Histories with operands that change from step to step: at step k every formula is in terms of the operands "
               "of step k only (C08_multi_step_time_varying, C08_no_hidden_memory). The model is tied to the code by running the extracted model (entry point with a "
